@@ -48,6 +48,10 @@ func c07TypeSrc(name string, t c07Type) string {
 			ts = f.Kind
 		case "named":
 			ts = "Addr"
+		case "self":
+			ts = name // the type refers to itself
+		case "selflist":
+			ts = "[" + name + "]"
 		case "union":
 			ts = "int | str"
 		case "list":
@@ -131,6 +135,13 @@ func c07GenType(rng *rand.Rand) c07Type {
 			f.Elem = []string{"int", "str", "named"}[rng.Intn(3)]
 			f.Spelling = []string{"[T]", "T[]", "List[T]", "List<T>"}[rng.Intn(4)]
 		}
+		if i > 0 && rng.Intn(7) == 0 {
+			// a self-referential field (a tree / linked structure): never required, no default
+			f.Kind = []string{"self", "selflist"}[rng.Intn(2)]
+			f.Optional = f.Kind == "self"
+			t.Fields = append(t.Fields, f)
+			continue
+		}
 		switch rng.Intn(4) {
 		case 0, 1:
 			f.Required = true
@@ -204,8 +215,10 @@ func c07Bad(kind string) interface{} {
 		return 5
 	case "union":
 		return true
-	case "list":
+	case "list", "selflist":
 		return 5
+	case "self":
+		return "not-an-object"
 	}
 	return map[string]interface{}{}
 }
@@ -219,11 +232,37 @@ type c07Doc struct {
 }
 
 func c07Conforming(rng *rand.Rand, t c07Type) map[string]interface{} {
+	return c07ConformingAt(rng, t, 0)
+}
+
+// c07ConformingAt: nested occurrences of the type itself (depth > 0) carry every field that
+// has a default, so that the expected echo does not depend on whether defaults are applied
+// inside nested objects (unspecified).
+func c07ConformingAt(rng *rand.Rand, t c07Type, depth int) map[string]interface{} {
 	d := map[string]interface{}{}
 	for _, f := range t.Fields {
-		if f.Required || rng.Intn(2) == 0 {
+		switch f.Kind {
+		case "self":
+			if depth < 2 && rng.Intn(2) == 0 {
+				d[f.Name] = c07ConformingAt(rng, t, depth+1)
+			}
+			continue
+		case "selflist":
+			if depth < 2 && rng.Intn(2) == 0 {
+				l := []interface{}{}
+				for k := rng.Intn(3); k > 0; k-- {
+					l = append(l, c07ConformingAt(rng, t, depth+1))
+				}
+				d[f.Name] = l
+			}
+			continue
+		}
+		if f.Required || rng.Intn(2) == 0 || (depth > 0 && f.Default != nil) {
 			d[f.Name] = c07Good(rng, f.Kind, f.Elem)
 		}
+	}
+	if depth > 0 {
+		return d
 	}
 	if rng.Intn(3) == 0 {
 		d["extra_field"] = "ignored"
@@ -262,6 +301,41 @@ func c07Mutants(rng *rand.Rand, t c07Type, base map[string]interface{}) []c07Doc
 				d5 := c07Clone(base)
 				d5[f.Name] = []interface{}{map[string]interface{}{"zip": 1}}
 				out = append(out, c07Doc{Fault: "list-element-missing-required", Doc: d5, Field: f.Name, Spell: f.Spelling})
+			}
+		}
+		if f.Kind == "self" || f.Kind == "selflist" {
+			// the fault sits in a nested occurrence of the type itself
+			wrap := func(inner map[string]interface{}) interface{} {
+				if f.Kind == "selflist" {
+					return []interface{}{c07ConformingAt(rng, t, 2), inner}
+				}
+				return inner
+			}
+			for _, g := range t.Fields {
+				if g.Kind == "self" || g.Kind == "selflist" {
+					continue
+				}
+				if g.Required {
+					in := c07ConformingAt(rng, t, 2)
+					delete(in, g.Name)
+					d := c07Clone(base)
+					d[f.Name] = wrap(in)
+					out = append(out, c07Doc{Fault: "self-nested-missing-required", Doc: d, Field: f.Name + "." + g.Name})
+					// one level deeper
+					in2 := c07ConformingAt(rng, t, 2)
+					delete(in2, g.Name)
+					mid := c07ConformingAt(rng, t, 2)
+					mid[f.Name] = wrap(in2)
+					dd := c07Clone(base)
+					dd[f.Name] = wrap(mid)
+					out = append(out, c07Doc{Fault: "self-nested-2-missing-required", Doc: dd, Field: f.Name + "." + f.Name + "." + g.Name})
+				}
+				in3 := c07ConformingAt(rng, t, 2)
+				in3[g.Name] = c07Bad(g.Kind)
+				d3 := c07Clone(base)
+				d3[f.Name] = wrap(in3)
+				out = append(out, c07Doc{Fault: "self-nested-wrong-kind:" + g.Kind, Doc: d3, Field: f.Name + "." + g.Name})
+				break
 			}
 		}
 		if f.Kind == "named" {
